@@ -1,9 +1,13 @@
 package main
 
 import (
+	"crypto/sha256"
+	"fmt"
+	"io"
 	"os"
 
 	"github.com/a14e/gogreement/src/analyzer"
+	"github.com/a14e/gogreement/src/config"
 
 	"golang.org/x/tools/go/analysis/multichecker"
 )
@@ -14,5 +18,37 @@ func main() {
 		os.Args = append(os.Args, "--help")
 	}
 
+	// `go vet -vettool` asks the tool for its identity with -V=full and reuses the facts it has cached for a
+	// package as long as that identity and the flags are the same. The GOGREEMENT_* variables decide what
+	// goes into the facts, so they have to be part of the identity.
+	if len(os.Args) == 2 && os.Args[1] == "-V=full" && printVersion() {
+		return
+	}
+
 	multichecker.Main(analyzer.AllAnalyzers()...)
+}
+
+// printVersion answers -V=full in the format the go command expects from a vet tool
+// (`<program> version devel ... buildID=<hash>`): the hash covers the executable, as the
+// answer of multichecker does, and the configuration taken from the environment.
+// It reports false, having printed nothing, when the executable cannot be read: the
+// question is then left to multichecker.
+func printVersion() bool {
+	progname, err := os.Executable()
+	if err != nil {
+		return false
+	}
+	f, err := os.Open(progname)
+	if err != nil {
+		return false
+	}
+	defer f.Close()
+
+	h := sha256.New()
+	if _, err := io.Copy(h, f); err != nil {
+		return false
+	}
+	config.WriteEnvFingerprint(h)
+	fmt.Printf("%s version devel comments-go-here buildID=%02x\n", progname, string(h.Sum(nil)))
+	return true
 }
